@@ -442,8 +442,30 @@ def drive(item):
     C.objvar = int(item.get("var", -1)) if item.get("var") is not None else -1
     C.lastsol = None
     C.bound = 4 * pass_bound(P)
+    # history quantifier: the SAME solver object has been used before (an exhaustive or a partial enumeration, an
+    # optimisation), unobserved; the recorded call is then judged like any other call - from the initial state of the
+    # problem.  The counters are zeroed in between, so that the statistics clauses count the recorded call only.
+    prior = item.get("prior")
+    if prior:
+        try:
+            if prior[0] == "solve":
+                for k, _ in enumerate(s.solve()):
+                    if k > 3000:
+                        break
+            elif prior[0] == "partial":
+                g0 = s.solve()
+                next(g0, None)
+                if prior[1] % 2:
+                    next(g0, None)
+            elif prior[0] == "min":
+                s.minimize(prior[1])
+            else:
+                s.maximize(prior[1])
+        except Exception:  # noqa - an earlier call that fails is the business of the run that records it
+            pass
+        s.statistics.fill(0)
     C.solver = s
-    C.tt = 0
+    C.tt = int(s.stacks_top[0])
     limit = item.get("limit")
     try:
         if mode == "solve":
